@@ -247,6 +247,13 @@ func (e *EventSubscription) enqueueEvent(subj string, payload []byte) {
 		case "query":
 			e.handleQueryEvent(subj, payload)
 		default:
+			// A reaccess event invalidates the access to every query of the
+			// resource, including those still being requested.
+			if event == "reaccess" {
+				for _, rs := range e.queries {
+					rs.handleEvent(&ResourceEvent{Event: event})
+				}
+			}
 
 			// Validate we have a base resource,
 			// and that it is not a link to a query resource.
